@@ -31,7 +31,7 @@ def run(ctx):
             npop += sync.aba(ctx, fn, fx=fx)
             nrel += sync.push_relink(ctx, fn, fx=fx)
             natom += sync.check_then_act(ctx, fn)
-            nsplit += sync.lock_split(ctx, fn)
+            nsplit += sync.lock_split(ctx, fn, fx=fx)
             nlocks += len(sync.lock_sites(fn))
     # a block is not written after it went back onto a free structure
     release.run(ctx, fx, FILES)
